@@ -33,6 +33,8 @@ type thread struct {
 	scriptIdx    int
 	scriptOff    int
 	lastCodeSep  int
+	// codeSepSeen tells an OP_CODESEPARATOR at offset 0 apart from "no separator executed yet"
+	codeSepSeen bool
 
 	tx         *bt.Tx
 	inputIdx   int
@@ -494,6 +496,7 @@ func (t *thread) Step() (bool, error) {
 	}
 
 	t.lastCodeSep = 0
+	t.codeSepSeen = false
 	if t.scriptIdx >= len(t.scripts) {
 		return true, nil
 	}
@@ -516,7 +519,7 @@ func (t *thread) SetStack(data [][]byte) {
 // subScript returns the script since the last OP_CODESEPARATOR.
 func (t *thread) subScript() ParsedScript {
 	skip := 0
-	if t.lastCodeSep > 0 {
+	if t.lastCodeSep > 0 || t.codeSepSeen {
 		skip = t.lastCodeSep + 1 // +1 to skip the opcode separator itself
 	}
 	return t.scripts[t.scriptIdx][skip:]
